@@ -916,4 +916,61 @@ def rule_intindex(ctx) -> RuleResult:
     if n == 0:
         res.notes.append("np.unravel_index is not used")
         res.min_instances = 0
+    # kernel clause: numpy_groupies unravels the positions of an N-d arg reduction itself, in the dtype it is handed.  The eager dtype slot
+    # (agg.dtype["numpy"]) defaults to the FINAL dtype -- floating for a NaN fill -- so the branch of _initialize_aggregation that pins the eager
+    # fill of arg reductions (agg.fill_value["numpy"] = (0,), "this allows us to unravel_index easily") must pin the eager dtype to an integer too.
+    ia = ctx.prog.func("aggregations._initialize_aggregation")
+    arms = [st for st in walk_own(ia.node) if isinstance(st, ast.If) and "_is_arg_reduction" in norm(st.test)
+            and any(isinstance(a, ast.Assign) and "fill_value['numpy']" in norm(a.targets[0]).replace('"', "'") for a in st.body)]
+    if not arms:
+        res.notes.append("UNDECIDED: _initialize_aggregation no longer pins the eager fill of arg reductions in an `if _is_arg_reduction(agg)` arm")
+    for st in arms:
+        pins = [a for a in st.body if isinstance(a, ast.Assign) and "dtype['numpy']" in norm(a.targets[0]).replace('"', "'")]
+        ok = any(any(k in norm(a.value) for k in ("np.intp", "np.int64", "np.int_")) for a in pins)
+        res.inst(f"_initialize_aggregation: the arg-reduction arm pins the eager kernel dtype to an integer: {ok}", "eager-dtype")
+        if not ok:
+            res.report("aggregations._initialize_aggregation|eager-argreduce-dtype-not-integer", ia.where(st), ia.qualname,
+                       "the arm that pins the eager fill of arg reductions leaves agg.dtype['numpy'] at the final dtype: with fill_value=np.nan that is float64, and "
+                       "numpy_groupies' own unravel of an N-d arg reduction raises TypeError 'only int indices permitted' (1-D input works, N-d does not)")
+    return res
+
+
+# ---------------------------------------------------------------------------------------------
+# R-ONESIDED (C10, C01): "all codes are equal" is never concluded from one end of their range.
+# Group codes carry the missing-label code -1 next to 0..n-1 (the scan kernels keep -1 as a group of its own, the reduction kernels drop it
+# later).  `codes.max() == 0` -- or `codes.max() < 1` -- does not say that there is a single group: {-1, 0} satisfies it, and a kernel that
+# then skips its sort / boundary search treats the unlabelled positions and group 0 as one sequence (values cross between groups).  A test on
+# the maximum of a code array must be conjoined with one on its minimum (or be written as an all-equal / non-negativity test).
+def rule_onesided(ctx) -> RuleResult:
+    res = RuleResult("R-ONESIDED", "single-group shortcuts test both ends of the code range", min_instances=0)
+    n = 0
+    for q, f in sorted(ctx.prog.funcs.items()):
+        if isinstance(f.node, ast.Lambda) or f.is_overload:
+            continue
+        code_names = {p for p in f.params if p in ("group_idx", "codes", "labels", "idx", "by")} | \
+                     {a.targets[0].id for a in walk_own(f.node) if isinstance(a, ast.Assign) and len(a.targets) == 1 and isinstance(a.targets[0], ast.Name)
+                      and a.targets[0].id in ("group_idx", "codes")}
+        if not code_names:
+            continue
+        for st in walk_own(f.node):
+            if not isinstance(st, (ast.If, ast.IfExp, ast.While)):
+                continue
+            leaves = st.test.values if isinstance(st.test, ast.BoolOp) and isinstance(st.test.op, ast.And) else [st.test]
+            def is_end(e, which):
+                return isinstance(e, ast.Compare) and len(e.ops) == 1 and isinstance(e.left, ast.Call) and isinstance(e.left.func, ast.Attribute) \
+                    and e.left.func.attr == which and isinstance(e.left.func.value, ast.Name) and e.left.func.value.id in code_names \
+                    and isinstance(e.comparators[0], ast.Constant) and isinstance(e.comparators[0].value, int)
+            tops = [l for l in leaves if is_end(l, "max") and isinstance(l.ops[0], (ast.Eq, ast.LtE, ast.Lt))]
+            for t in tops:
+                n += 1
+                v = t.left.func.value.id
+                both = any(is_end(l, "min") and l.left.func.value.id == v for l in leaves) \
+                    or any(isinstance(l, ast.Compare) and v in names_in(l) and isinstance(l.ops[0], (ast.GtE, ast.Gt)) for l in leaves if l is not t)
+                res.inst(f"{q}: '{norm(st.test)[:60]}' bounds {v} from above; lower end tested too: {both}", f"{q}|{norm(t)[:40]}")
+                if not both:
+                    res.report(f"{q}|single-group-from-maximum|{norm(t)[:30]}", f.where(st), q,
+                               f"'{norm(t)}' is taken for \"a single group\", but codes also carry -1 for missing labels: {{-1, 0}} passes the test, and the shortcut then "
+                               "handles the unlabelled positions and the first group as one run (a forward fill crosses from one into the other)")
+    if n == 0:
+        res.notes.append("no shortcut on the maximum of a code array today (the self-test keeps a positive example)")
     return res
